@@ -304,7 +304,7 @@ type c16SessState struct {
 
 	acceptedSteps int
 	racySteps     int
-	initPending   bool // an init upload was never answered (receiver delay outlasted the run)
+	initPending   bool    // an init upload was never answered (receiver delay outlasted the run)
 	stepTimes     []int64 // fake-clock instants (ms) of the accepted steps
 	pendDelayMS   int64   // sum of delay x count of the delay faults armed for this session
 	stepHung      bool
